@@ -83,6 +83,37 @@ def expansion_case(aes, rep, kl, col_in, col_out, batch, timeout):
             rep.obligation('frame[key_expansion,%d]' % kl, MOD + '::key_expansion', 'frame', dict(result='sat', backend='frame-scan', secs=0))
             rep.violation('frame[key_expansion,%d]' % kl, MOD + '::key_expansion', 'caller key array modified', dict(kind='expansion-frame', kl=kl, col_in=col_in, col_out=col_out, batch=batch), None, None)
 
+def schedule_history(aes, rep, timeout):
+    """history: the schedule is a function of the key ARRAY (shape included): the same 32 bytes read first as one AES-256 key and then as two AES-128
+    keys (and 16 bytes as (16,) then (1,16)) give each time the schedule of that reading -- no state kept between calls"""
+    oname = 'history[key_schedule: same bytes, another shape]'; fn = MOD + '::key_schedule'
+    def body():
+        K = H.sym_bytes('K', (32,), 'uint8')
+        L.set_task(stubs={'scared._utils::_is_bytes_array': bytes_stub})
+        o1 = aes.fn('key_schedule')(K); o2 = aes.fn('key_schedule')(K.reshape(2, 16)); o3 = aes.fn('key_schedule')(K[:16]); o4 = aes.fn('key_schedule')(K[:16].reshape(1, 16))
+        return K, o1, o2, o3, o4
+    for p, outc, exc in core.explore(body):
+        case = dict(kind='schedule_history')
+        if exc is not None:
+            rep.obligation(oname, fn, 'post', dict(result='sat', backend='exec', secs=0), sample=repr(exc))
+            rep.violation(oname, fn, 'raises %r' % (exc,), case, None, *R.replay_native('props.c10_native', case)); continue
+        K, o1, o2, o3, o4 = outc
+        kb = [K.at(j) for j in range(32)]
+        def flat(rks): return [b for rk in rks for b in rk]
+        exp = [((15, 16), flat(F.round_keys(kb, SymAlg))), ((2, 11, 16), flat(F.round_keys(kb[:16], SymAlg)) + flat(F.round_keys(kb[16:], SymAlg))),
+               ((11, 16), flat(F.round_keys(kb[:16], SymAlg))), (None, flat(F.round_keys(kb[:16], SymAlg)))]
+        bad = None
+        for k_, (o, (shp, e)) in enumerate(zip((o1, o2, o3, o4), exp)):
+            if shp is not None and tuple(o.shape) != shp: bad = 'call %d returns shape %s, expected %s' % (k_ + 1, tuple(o.shape), shp); break
+            if o.size != len(e): bad = 'call %d returns %s values, expected %d' % (k_ + 1, o.size, len(e)); break
+            import itertools as _it
+            got = [o.at(*i) for i in _it.product(*[range(d) for d in o.shape])]
+            if not H.structurally_equal(got, e, simp=True):
+                r_ = solve.discharge(p.pc, H.eq_all(got, e), timeout_ms=timeout)
+                if r_['result'] != 'unsat': bad = 'call %d differs from the FIPS-197 schedule of its own argument (%s)' % (k_ + 1, r_['result']); break
+        rep.obligation(oname, fn, 'post', dict(result='sat' if bad else 'unsat', backend='structural', secs=0), sample='key_schedule((32,)), ((2,16)), ((16,)), ((1,16)) on the same bytes')
+        if bad: rep.violation(oname, fn, bad, case, None, *R.replay_native('props.c10_native', case))
+
 def schedule_case(aes, rep, kl, batch, timeout):
     """key_schedule(key) == the Nr+1 FIPS round keys, shape (Nr+1,16) / (N,Nr+1,16)"""
     nk = kl // 4; nr = F.NR[kl]
@@ -208,11 +239,13 @@ def main():
         if kind == 'exp': expansion_case(aes, sub, args[0], args[1], args[2], args[3], timeout)
         elif kind == 'sched': schedule_case(aes, sub, args[0], args[1], timeout)
         elif kind == 'inv': inv_schedule_case(aes, sub, args[0], args[1], timeout)
+        elif kind == 'schedhist': schedule_history(aes, sub, timeout)
     # group units to limit process overhead
     groups = [units[i:i + 12] for i in range(0, len(units), 12)]
     def work_group(sub, *group):
         for u in group: work(sub, *u)
     P.run_units(rep, work_group, [tuple(g) for g in groups])
+    P.run_units(rep, work_group, [(('schedhist',),)])          # its own unit: a model limit met by a neighbour must not hide it
     refusals(aes, rep); canary(aes, rep, timeout)
     # DES part
     from props import c10_des
